@@ -106,7 +106,7 @@ def run_demo(root):
         return 124, 'demo timed out after 600 s'
 
 
-def cmd_verify(prop, run_suite=True):
+def cmd_verify(prop, run_suite=True, part='all'):
     m = load_meta(prop)
     tmp = scratch(prop, patched=False)
     rc0, out0 = run_demo(tmp)
@@ -121,8 +121,9 @@ def cmd_verify(prop, run_suite=True):
             xml = os.path.join(tmp, 'junit.xml')
             t0 = time.time()
             env = dict(os.environ, PYTHONPATH=tmp)
+            sel = {'all': [], 'nosock': ['-k', 'not socket'], 'sock': ['-k', 'socket']}[part]
             r = subprocess.run([PY, '-m', 'pytest', '-q', '-p', 'no:cacheprovider', '--timeout=900',
-                                '--continue-on-collection-errors', '--junitxml=' + xml, 'tests'],
+                                '--continue-on-collection-errors', '--junitxml=' + xml] + sel + ['tests'],
                                cwd=tmp, env=env, capture_output=True, text=True, timeout=3600)
             where = subprocess.run([PY, '-c', 'import pexpect; print(pexpect.__file__)'], cwd=os.path.join(tmp, 'tests'),
                                    env=env, capture_output=True, text=True).stdout.strip()
@@ -132,6 +133,17 @@ def cmd_verify(prop, run_suite=True):
             for tc in ET.parse(xml).getroot().iter('testcase'):
                 if not any(ch.tag in ('failure', 'error', 'skipped') for ch in tc):
                     passed.add('%s::%s' % (tc.get('classname'), tc.get('name')))
+            if part != 'all':
+                # the suite run in two passes (everything but the socket tests, which share a TCP port and must run
+                # alone; then the socket tests): the passes are merged once both are there
+                parts = m.setdefault('test_suite_parts', {})
+                parts[part] = sorted(passed)
+                print('suite part %s: %d baseline tests passed (%s)' % (part, len(stable & passed), where))
+                if not ('nosock' in parts and 'sock' in parts):
+                    save_meta(prop, m)
+                    return
+                passed = set(parts['nosock']) | set(parts['sock'])
+                del m['test_suite_parts']
             missing = sorted(stable - passed)
             m['test_suite'] = {'baseline_tests': len(stable), 'baseline_passing_with_change': len(stable & passed),
                                'baseline_failing_with_change': missing[:10], 'imported_from': where,
@@ -191,7 +203,8 @@ def main():
     if a[0] == 'import':
         cmd_import(_norm(a[1]), a[2])
     elif a[0] == 'verify':
-        cmd_verify(_norm(a[1]), run_suite='--no-suite' not in a)
+        cmd_verify(_norm(a[1]), run_suite='--no-suite' not in a,
+                   part=('nosock' if '--nosock' in a else 'sock' if '--sock' in a else 'all'))
     elif a[0] == 'detect':
         prop = _norm(a[1])
         cmd_detect(prop, [c.upper() for c in a[2:]] or [prop[:3]])
